@@ -61,7 +61,9 @@ def battery(r):
     """In-place edits of a returned table through public mutating calls."""
     if r.is_empty():
         return
-    for axis in ("observation", "sample"):
+    # (first along the axis the table's current layout serves in place)
+    for axis in (("observation", "sample") if r.matrix_data.format == "csr"
+                 else ("sample", "observation")):
         r.transform(lambda v, i, md: v * 2 + 1, axis=axis, inplace=True)
     for axis in ("observation", "sample"):
         ids = [str(i) for i in r.ids(axis=axis)]
